@@ -485,6 +485,32 @@ func runC17Signed(c *Ctx, k0 *sm2.PrivateKey, c0 *gx509.Certificate, k1 *sm2.Pri
 			} else {
 				other[len(other)/2] ^= 0x10
 			}
+			// one parsed object verified several times with its exported Content field reassigned in between (the
+			// detached-content workflow): every answer must be for the content present at that call
+			if p7, e := gx509.ParsePKCS7(der); e == nil {
+				seq := [][]byte{content, other, content, other, []byte("entirely different"), content}
+				if !cs.attached && len(content) > 0 {
+					seq = append([][]byte{other}, seq...) // a rejected content first, then the genuine one
+				}
+				for si, ct := range seq {
+					p7.Content = ct
+					var ve error
+					if pi := mon.Guard(func() { ve = p7.Verify() }); pi != nil {
+						rep.Violation("C17/Verify/panic/"+pi.Func+"/repeated-verify", pi.Value, w)
+						break
+					}
+					genuine := bytes.Equal(ct, content)
+					if genuine && ve != nil {
+						rep.Violation(fmt.Sprintf("C17/Verify/rejects-genuine-content-after-earlier-verifications/attrs=%v", cs.attrs), fmt.Sprintf("call %d on one parsed object: %v", si+1, ve), w)
+						break
+					}
+					if !genuine && ve == nil {
+						rep.Violation(fmt.Sprintf("C17/Verify/accepts-other-content-after-earlier-verifications/attrs=%v", cs.attrs), fmt.Sprintf("call %d on one parsed object", si+1), w)
+						break
+					}
+				}
+				rep.Eval(fmt.Sprintf("signed/sm2/repeated-verify-with-content-reassigned/attrs=%v/attached=%v", cs.attrs, cs.attached))
+			}
 			if cs.attached {
 				d2, _ := buildSM2SignedData(other, c0, func(msg []byte) []byte { return signerSigOf(der) }, false, true, cs.digestOID, cs.ctOID)
 				if !cs.attrs {
